@@ -153,7 +153,7 @@ def expected_scalar(c, op, side):
 # ----------------------------------------------------------------------------- operands
 def operand(rng, c, multi):
     sm = S()
-    n = 2 if multi else 1
+    n = (multi if multi > 1 else 2) if multi else 1        # (multi may be a count: operand(rng, c, 16) builds sixteen values)
 
     def one():
         if c == 'SO2':
@@ -555,6 +555,14 @@ def run(ctx):
             i += 1
             if ctx.mine(i):
                 drive(RUNNERS, ctx, 'cell', dict(L=L_, R=R_, op=op, a=[], b=[], exp=['raise']))
+    # two different pose classes with many values on one or both sides (a batch path keyed on the shape of the values would not
+    # tell an SE2 from an SO3: both are 3 x 3)
+    for L_, R_ in itertools.permutations(POSES, 2):
+        for op in ARITH:
+            for nl, nr in ((16, 16), (16, False), (False, 17), (64, 64)):
+                i += 1
+                if ctx.mine(i):
+                    drive(RUNNERS, ctx, 'cell', dict(L=L_, R=R_, op=op, a=operand(rng, L_, nl), b=operand(rng, R_, nr), exp=['raise']))
     # operands holding no value (Empty()): never None
     for c in POSES + ['Quaternion', 'UnitQuaternion', 'Twist2', 'Twist3']:
         d_ = 2 if c in ('SO2', 'SE2', 'Twist2') else 3
@@ -593,6 +601,15 @@ def run(ctx):
                         continue
                     M = (np.eye(n_) + 0.1 * rng.normal(size=shape)) if shape == (n_, n_) else 1.0 + rng.random(size=shape)
                     drive(RUNNERS, ctx, 'cell', dict(L=c, R='ndarray', op=op, a=operand(rng, c, ml), b=M, exp=['raise']))
+    # a pose holding several values times an array of points that conforms in its rows only (d x K with K different from the
+    # number of values, K != 1): defined nowhere -- an exception, in particular never None
+    for c in POSES:
+        d_ = 2 if c in ('SO2', 'SE2') else 3
+        for op in ('mul', 'imul'):
+            for K in (3, 4, 5, 7):          # (operand() builds two values)
+                i += 1
+                if ctx.mine(i):
+                    drive(RUNNERS, ctx, 'cell', dict(L=c, R='ndarray', op=op, a=operand(rng, c, True), b=1.0 + rng.random(size=(d_, K)), exp=['raise']))
     # a plain list / tuple on the LEFT of a library object is documented for no class: must raise
     for c in CLASSES:
         for op in ARITH:
